@@ -34,7 +34,10 @@ func main() {
 		os.Exit(2)
 	}
 	mode, id, arg := os.Args[1], os.Args[2], os.Args[3]
-	root := os.Getenv("VERIF_ROOT")
+	root := os.Getenv("VERIF_ROOT_OUT") // self-test runs redirect evidence/replays away from /verif
+	if root == "" {
+		root = os.Getenv("VERIF_ROOT")
+	}
 	if root == "" {
 		root = "/verif"
 	}
